@@ -197,11 +197,12 @@ def _analyze(tier, seed):
         missing = [i for i in ids if ("- " + i) not in str(e)]
         if missing:
             res.fail("the unknown-id error does not list every registered id", dict(op="make-unknown-list"), dict(missing=missing))
+    original = reg._REGISTRY.get(ids[0])
     try:
         before = list(reg._REGISTRY)
         reg.register(ids[0], "harness.fakeenv:FakeEnv")
-        res.fail("re-registering a shipped id is not refused", dict(op="register-shipped-dup"), dict(id=ids[0]))
-        del reg._REGISTRY[ids[0]]
+        res.fail("re-registering a shipped id (with another entry point) is not refused", dict(op="register-shipped-dup"), dict(id=ids[0]))
+        reg._REGISTRY[ids[0]] = original          # put the shipped entry back: the remaining checks are about the shipped registry
     except ValueError:
         res.evaluations += 1
         if list(reg._REGISTRY) != before:
